@@ -140,6 +140,9 @@ Section Timeout.
      nothing or - only when a timeout is configured for this kind of phase and
      the schedule lets it fire - by Timeout events for exactly the objects
      pending at that moment *)
+  Lemma nt_wait_reset c ids s : emits s (wait_reset sc c ids s) [].
+  Proof. apply emits_same. apply wait_reset_tr. Qed.
+
   Theorem wait_task_timeouts c g ids s :
     exists es1 es2, emits s (wait_task sc c g ids s) (es1 ++ es2) /\ Forall not_timeout es1 /\
       (es2 = [] \/
@@ -155,16 +158,18 @@ Section Timeout.
                               exists pending, es2 = map (fun i => EWait g i WTimedOut) pending))).
     { intros s' esB EB FB. exists (esA ++ esB), []. rewrite app_nil_r. split; [exact (emits_trans _ _ _ _ _ EA EB)|].
       split; [apply Forall_app; split; assumption|left; reflexivity]. }
-    destruct (w_pending w1); [apply (NONE s1 []); [apply emits_refl|constructor]|].
+    destruct (w_pending w1); [apply (NONE _ []); [apply nt_wait_reset|constructor]|].
     destruct (match e_watch_err_at (sc_env sc) with Some n => Nat.eqb n (snd g) | None => false end);
       [apply (NONE _ []); [apply e_set_abort|constructor]|].
     destruct (nt_deliver c g ids (w_deliv (nth (snd g) (e_waits (sc_env sc)) (mkW [] WTimeout))) s1 w1) as [esB [EB FB]].
     destruct (deliver sc c g ids _ s1 w1) as [s2 w2]. cbn [fst] in *.
-    destruct (w_pending w2) eqn:EP; [apply (NONE s2 esB); assumption|]. cbv iota.
+    destruct (w_pending w2) eqn:EP;
+      [apply (NONE _ esB); [eapply emits_nil_r; [exact EB|apply nt_wait_reset]|exact FB]|]. cbv iota.
     destruct (w_end _).
     - destruct (match c with AllCurrent => _ | AllNotFound => _ end) eqn:HT.
       + exists (esA ++ esB), (map (fun i => EWait g i WTimedOut) (w_pending w2)). rewrite EP. rewrite <- EP. split.
-        * rewrite <- app_assoc. eapply emits_trans; [exact EA|]. eapply emits_trans; [exact EB|apply wait_timeout_events].
+        * rewrite <- app_assoc. eapply emits_trans; [exact EA|]. eapply emits_trans; [exact EB|].
+          eapply emits_nil_r; [apply wait_timeout_events|apply nt_wait_reset].
         * split; [apply Forall_app; split; assumption|]. right. split; [reflexivity|eauto].
       + apply (NONE _ esB); [eapply emits_nil_r; [exact EB|apply e_set_abort]|exact FB].
     - apply (NONE _ esB); [eapply emits_nil_r; [exact EB|apply e_set_abort]|exact FB].
